@@ -2,6 +2,7 @@
 //! Every subcommand reads/writes NDJSON or a JSON report; see /verif/DESIGN.md §3.
 mod lex;
 mod util;
+mod values;
 mod wrap;
 
 fn arg(args: &[String], name: &str, default: &str) -> String {
@@ -32,6 +33,10 @@ fn main() {
         "c14-cursor-replay" => lex::c14_cursor_replay(&input, &out),
         "c14-helpers-replay" => lex::c14_helpers_replay(&input, &out),
         "c14-record" => lex::c14_record(seed, n, arg(&args, "--maxops", "20").parse().unwrap(), &out),
+        "c04-ranged-replay" => values::c04_ranged_replay(&input, &out, &div),
+        "c04-other-replay" => values::c04_other_replay(&input, &out, &div),
+        "c04-access-replay" => values::c04_access_replay(&input, &out, &div),
+        "c04-record" => values::c04_record(seed, n, &out),
         "c20-replay" => wrap::c20_replay(&input, &out, &div),
         "c20-record" => wrap::c20_record(seed, n, arg(&args, "--maxlen", "120").parse().unwrap(), &out),
         _ => {
